@@ -143,6 +143,7 @@ type OpenCfg struct {
 	CacheBytes uint64 `json:"cache_bytes,omitempty"`
 	Lossy      int    `json:"lossy,omitempty"` // per-mille of Get->miss / dropped Put in the lossy wrapper (0 = plain)
 	ViaDB      bool   `json:"via_db,omitempty"` // OpenIndexFromBoltDatabase on a harness-opened DB
+	Audit      bool   `json:"audit,omitempty"`  // cache seam holds the auditing cache (always misses, records every key -> bitmap)
 }
 
 func (o OpenCfg) Class() string {
@@ -164,6 +165,9 @@ func (o OpenCfg) Class() string {
 	}
 	if o.Lossy > 0 {
 		c += "/lossy"
+	}
+	if o.Audit {
+		c += "/audit"
 	}
 	return c
 }
@@ -203,13 +207,41 @@ type cacheProbe struct {
 	hit, miss, get, put ctr
 	lru                 *updog.LRUCache
 	lossy               *lossyCache
+	audit               *auditCache
+}
+
+// auditCache sits in the updog.Cache seam, never returns a hit (always legal) and records
+// every (key, bitmap) it is offered. One index is immutable, so one key must always come
+// with the same set of rows: two Puts under one key with different contents mean that two
+// expressions of different meaning share a cache key — whether or not a real cache would
+// have retained the first entry long enough for the second to hit it.
+type auditCache struct {
+	seen     map[uint64]*roaring.Bitmap
+	puts     int64
+	conflict string
+}
+
+func (a *auditCache) Get(key uint64) (*roaring.Bitmap, bool) { return nil, false }
+
+func (a *auditCache) Put(key uint64, bm *roaring.Bitmap) {
+	a.puts++
+	if prev, ok := a.seen[key]; ok {
+		if !prev.Equals(bm) && a.conflict == "" {
+			a.conflict = fmt.Sprintf("cache key %#x was offered with a bitmap of %d rows and later with a different one of %d rows", key, prev.GetCardinality(), bm.GetCardinality())
+		}
+		return
+	}
+	a.seen[key] = bm.Clone()
 }
 
 // OpenIndex opens path according to o. seed drives the lossy wrapper.
 func OpenIndex(path string, o OpenCfg, seed uint64) (*updog.Index, *cacheProbe, error) {
 	var opts []updog.IndexOption
 	probe := &cacheProbe{}
-	if o.Cache == "lru" {
+	if o.Audit {
+		probe.audit = &auditCache{seen: map[uint64]*roaring.Bitmap{}}
+		opts = append(opts, updog.WithCache(probe.audit))
+	} else if o.Cache == "lru" {
 		probe.lru = updog.NewLRUCache(o.CacheBytes, updog.WithCacheMetrics(&updog.CacheMetrics{
 			CacheHit: &probe.hit, CacheMiss: &probe.miss, GetCall: &probe.get, PutCall: &probe.put,
 		}))
@@ -288,6 +320,43 @@ func flockFree(path string) (bool, error) {
 	_ = syscall.Flock(int(f.Fd()), syscall.LOCK_UN)
 	return true, nil
 }
+
+// guardHang runs f on its own goroutine. Besides a panic it recognises a self-deadlock: the
+// goroutine has been blocked on a sync mutex for 15 s of wall time (e.g. a deferred
+// bbolt DB.Close() waiting for the write transaction the same goroutine left open). The
+// verdict comes from the goroutine's state in a stack dump, not from elapsed time alone: a
+// call that is still computing is waited for (the per-run wall watchdog bounds that).
+func guardHang(f func()) (panicked string, hung string) {
+	done := make(chan string, 1)
+	go hangProbeGoroutine(f, done)
+	tick := time.NewTicker(250 * time.Millisecond)
+	defer tick.Stop()
+	start := time.Now()
+	for {
+		select {
+		case p := <-done:
+			return p, ""
+		case <-tick.C:
+			if time.Since(start) < 15*time.Second {
+				continue
+			}
+			for _, g := range splitGoroutines(allStacksText()) {
+				if !containsAny(g, "verifsim.hangProbeGoroutine") {
+					continue
+				}
+				head := splitLines(g)[0]
+				if containsAny(head, "sync.Mutex.Lock", "sync.RWMutex", "semacquire") {
+					if len(g) > 2500 {
+						g = g[:2500]
+					}
+					return "", g
+				}
+			}
+		}
+	}
+}
+
+func hangProbeGoroutine(f func(), done chan string) { done <- guard(f) }
 
 // guard runs f and converts a panic into an error string.
 func guard(f func()) (panicked string) {
